@@ -54,6 +54,9 @@ func (s *session) close() {
 	if s.e.ViaConn {
 		stat.Label("session_over_connection_loop", 1)
 	}
+	if o := s.e.NFS.GetExportOptions(); o.Log != nil && o.Log.Level == "debug" {
+		stat.Label("session_with_debug_logging", 1)
+	}
 	s.e.Close()
 }
 
@@ -150,6 +153,9 @@ type cacheCfg struct {
 	// Conn (not a cache setting; it travels with the session configuration of the history checks): every request of
 	// the case goes through the server's record-marking connection loop (drv.Env.ViaConn) instead of a direct HandleCall.
 	Conn bool `json:"conn,omitempty"`
+	// Verbose (not a cache setting either): debug-level JSON logging of operations, file access and client addresses
+	// is switched on (to /dev/null). Logging must not change any reply.
+	Verbose bool `json:"verbose,omitempty"`
 }
 
 func (c cacheCfg) apply(o *absnfs.ExportOptions) {
@@ -162,6 +168,9 @@ func (c cacheCfg) apply(o *absnfs.ExportOptions) {
 	}
 	if c.Negative {
 		o.NegativeCacheTimeout = time.Hour
+	}
+	if c.Verbose {
+		o.Log = &absnfs.LogConfig{Level: "debug", Format: "json", Output: "/dev/null", LogClientIPs: true, LogOperations: true, LogFileAccess: true}
 	}
 }
 
